@@ -458,6 +458,20 @@ Theorem C18_indexed_hypotheses_satisfiable : forall fails,
 Proof. exact x_push_indexed_hyps. Qed.
 Print Assumptions C18_indexed_hypotheses_satisfiable.
 
+(* remotes attached read_only (ObjectStorage(..., read_only=True)): a push leaves their prefixes out
+   of collect - no group, so (C18_moves_only_requested) nothing is written to them - and a fetch does
+   not look at the flag; with none attached the run is the one the theorems speak about *)
+Theorem C18_readonly : forall ro m idx,
+  (forall g, In g (collect_ro ro m idx) -> existsb (N.eqb (g_data g)) ro = false) /\
+  collect_ro [] m idx = collect m idx /\
+  groups_ro RFetch ro m idx = collect m idx /\
+  (forall e k w x, run_round_ro e k [] m idx w x = run_round_ix e k m idx w x).
+Proof.
+  intros ro m idx. split; [intros g; apply collect_ro_skips|]. split; [apply collect_ro_nil|].
+  split; [reflexivity|]. intros e k w x. apply run_round_ro_nil.
+Qed.
+Print Assumptions C18_readonly.
+
 (* non-vacuity: a concrete system (prefix inside a directory entry, two remotes) satisfies every
    hypothesis of C18_push / C18_counts / C18_retry for every failure oracle, and its run is the
    expected one (fault, retry, fetch, checkout) *)
